@@ -64,7 +64,7 @@ theorem fresh_step (i : Inst) (s : State) (a : Nat) : Fresh (step i s a) := by
   intro h
   have h0 : a = 0 := h
   subst h0
-  simp [step]
+  simp [step_def]
 
 /-- On a well-formed instance every unvisited customer is offered to a fresh vehicle at the depot. -/
 theorem canVisit_of_fresh {i : Inst} (hwf : wf i = true) {s : State} (hf : Fresh s) (hc : s.cur = 0)
